@@ -367,6 +367,7 @@ func UserProps(t *rapid.T, label string, o Opts) []model.KV {
 func Will(t *rapid.T, o Opts) *model.Will {
 	w := &model.Will{}
 	w.Topic = Topic(t, "will.topic", o, o.SpecValid || o.WellFormed)
+	w.XDup = !o.SpecValid && rapid.IntRange(0, 3).Draw(t, "will.dup") == 0
 	if present(t, "will.payload") {
 		w.Payload = Bytes(t, "will.payload", o)
 	}
